@@ -34,7 +34,9 @@ CONFIGS = {
     "annotation-free": dict(n_chroms=2, extra=[], annotated=False),
     "gzipped-outputs": dict(n_chroms=2, extra=[], gz=True),
     # the killed run is a --force run started in a folder that still holds a COMPLETED earlier run (different reads, --keep_tmp)
-    "force-over-previous-run": dict(n_chroms=2, extra=[], dirty=True),
+    # (the earlier run also had ANOTHER annotation that bears the same file name, in another folder; the killed runs start without cached
+    # conversions, so they convert the annotation themselves after .params was saved)
+    "force-over-previous-run": dict(n_chroms=2, extra=[], dirty=True, fresh_home=True),
     # the killed run starts from the assignments saved by an earlier --keep_tmp run (--read_assignments <prefix>); every run has its own
     # copy of the saved files, because stage locks are written next to them
     "from-saved-assignments": dict(n_chroms=2, extra=[], saved=True),
@@ -109,6 +111,16 @@ def make_inputs(cfg, d, seed):
                         name_, seq_ = line_, []
                     else:
                         seq_.append(line_.strip())
+    if cfg.get("dirty") and cfg.get("annotated", True):
+        # the earlier run's annotation: same file name, every second gene left out
+        os.makedirs(os.path.join(d, "gtf_earlier"), exist_ok=True)
+        import re as _re
+        keep_ = {}
+        with open(os.path.join(d, "a.gtf")) as f_, open(os.path.join(d, "gtf_earlier", "a.gtf"), "w") as g_:
+            for line_ in f_:
+                m_ = _re.search(r'gene_id "([^"]+)"', line_)
+                if m_ is None or keep_.setdefault(m_.group(1), len(keep_) % 2 == 0):
+                    g_.write(line_)
     if cfg.get("rg_file_name"):
         extra += ["--read_group", "file_name"]
         # the file is passed through a symbolic link with another name (a staging folder): the group is named after what stands on the command line
@@ -183,6 +195,8 @@ def run(chk, scratch):
             a_args[a_args.index("--bam") + 1] = half
             if cfg.get("ref_gz"):
                 a_args[a_args.index("-r") + 1] = os.path.join(d, "gz_earlier", "g.fa.gz")
+            if "-g" in a_args:
+                a_args[a_args.index("-g") + 1] = os.path.join(d, "gtf_earlier", "a.gtf")
             ra = runner.run_isoquant(a_args, os.path.join(d, "home"))
             if ra["rc"] != 0:
                 raise runner.Inconclusive("could not prepare the stale folder: " + pipeline.fail_text(ra))
@@ -199,7 +213,9 @@ def run(chk, scratch):
                 raise runner.Inconclusive("could not prepare saved assignments: " + pipeline.fail_text(r0))
             saves_src = os.path.join(d, "saving", pipeline.PREFIX, "aux")
             shutil.copytree(saves_src, os.path.join(d, "saves_clean"))
-        r = runner.run_isoquant(args_for(cfg, d, clean, extra, saves=os.path.join(d, "saves_clean") if saves_src else None), os.path.join(d, "home"), mon=["crash"],
+        # (killed runs that start without cached conversions are numbered by a monitored run that starts without them, too)
+        r = runner.run_isoquant(args_for(cfg, d, clean, extra, saves=os.path.join(d, "saves_clean") if saves_src else None),
+                                os.path.join(d, "home_clean" if cfg.get("fresh_home") and cfg.get("dirty") else "home"), mon=["crash"],
                                 cfg={"crash_root": clean, "crash_count_index": bool(cfg.get("ref_gz"))}, events=ev, cwd=d if cfg.get("relative") else None)
         if cfg.get("dirty") and r["rc"] == 0:
             # the tree every resumed run is compared with is the clean-folder run
@@ -251,9 +267,16 @@ def run(chk, scratch):
         def after(n):
             return n in lockish or n in last_of_site or n in reusable or n % 3 == 2
 
+        # a file that gets its final name by a rename: killed right after it (the complete file is there) AND right before it (what was there
+        # before, e.g. the file of an earlier run, is still there); the second variant is listed as -n
+        chosen += [-e["n"] for e in points if e["op"] == "rename" and e["n"] in chosen]
+
         def one(n):
-            out = os.path.join(d, "crash%d" % n)
-            home = os.path.join(d, "home%d" % n)
+            before_rename = n < 0
+            n = abs(n)
+            aft = False if before_rename else after(n)
+            out = os.path.join(d, "crash%d%s" % (n, "b" if before_rename else ""))
+            home = os.path.join(d, "home%d%s" % (n, "b" if before_rename else ""))
             if cfg.get("fresh_home"):
                 os.makedirs(home)
             else:
@@ -262,19 +285,19 @@ def run(chk, scratch):
                 shutil.copytree(stale, out)
             sv = None
             if saves_src:
-                sv = os.path.join(d, "saves%d" % n)
+                sv = os.path.join(d, "saves%d%s" % (n, "b" if before_rename else ""))
                 shutil.copytree(saves_src, sv)
             # every third crash point: the process dies immediately AFTER the mutation (a marker file exists, nothing written since has
             # been flushed), otherwise immediately before it
             r1 = runner.run_isoquant(args_for(cfg, d, out, extra, saves=sv), home, mon=["crash"],
-                                     cfg={"crash_root": out, "crash_at": n, "crash_after": after(n), "crash_count_index": bool(cfg.get("ref_gz"))}, events=os.path.join(d, "ev%d" % n),
+                                     cfg={"crash_root": out, "crash_at": n, "crash_after": aft, "crash_count_index": bool(cfg.get("ref_gz"))}, events=os.path.join(d, "ev%d%s" % (n, "b" if before_rename else "")),
                                      cwd=d if cfg.get("relative") else None)
             r2 = None
             if r1["rc"] == 137:
                 # every second crash point is resumed with another thread count (the resume parser accepts --threads)
                 r2 = runner.run_isoquant(["--resume", "-o", out] + (["--threads", "3"] if n % 2 else []), home, timeout=300)
-            return n, out, r1, r2
-        for n, out, r1, r2 in runner.parallel(one, chosen, workers=12):
+            return n, out, r1, r2, aft
+        for n, out, r1, r2, aft in runner.parallel(one, chosen, workers=12):
             site = site_by_n[n]
             chk.note()
             if r1["rc"] != 137:
@@ -285,15 +308,15 @@ def run(chk, scratch):
             sites_seen.add(site)
             chk.nontrivial.add(site)
             wit = {"config": cname, "crash_point": n, "site": site, "options": extra, "resumed_with": "--threads 3" if n % 2 else "the saved options",
-                   "killed": "after the mutation" if after(n) else "before the mutation"}
-            chk.count("killed_after_mutation" if after(n) else "killed_before_mutation")
+                   "killed": "after the mutation" if aft else "before the mutation"}
+            chk.count("killed_after_mutation" if aft else "killed_before_mutation")
             if r2["rc"] is None:
                 chk.inconclusive.append("%s: watchdog expired while resuming after crash point %d" % (cname, n))
             elif r2["rc"] != 0:
                 last = [l for l in r2["out"].strip().splitlines() if l.strip()][-1:] or [""]
                 err = last[0].split(":")[0][:60]
                 chk.violation("resume-exit-nonzero:crash-site=%s" % site,
-                              "%s: killed %s mutation %d (%s); --resume exits %s: %s" % (cname, "after" if after(n) else "before", n, site, r2["rc"], r2["out"][-300:].replace("\n", " | ")),
+                              "%s: killed %s mutation %d (%s); --resume exits %s: %s" % (cname, "after" if aft else "before", n, site, r2["rc"], r2["out"][-300:].replace("\n", " | ")),
                               wit)
             else:
                 diffs = tree_diffs(cfg, clean, out)
@@ -302,10 +325,10 @@ def run(chk, scratch):
                 diffs = [x for x in diffs if "aux" not in x[0].split(os.sep)]
                 for rel, why in diffs[:6]:
                     chk.violation("silent-diff:crash-site=%s:%s" % (site, file_kind(os.path.join(out, rel), out)),
-                                  "%s: killed %s mutation %d (%s); --resume exits 0 but %s %s" % (cname, "after" if after(n) else "before", n, site, rel, why), wit)
+                                  "%s: killed %s mutation %d (%s); --resume exits 0 but %s %s" % (cname, "after" if aft else "before", n, site, rel, why), wit)
             chk.sample({"config": cname, "crash_point": n, "site": site, "resume_exit": r2["rc"] if r2 else None}, limit=5)
             shutil.rmtree(out, ignore_errors=True)
-            shutil.rmtree(os.path.join(d, "saves%d" % n), ignore_errors=True)
+            shutil.rmtree(os.path.join(d, os.path.basename(out).replace("crash", "saves")), ignore_errors=True)
         # source-free failpoints: the process dies at the k-th executed LINE of the repository's own code (any instruction between two
         # a run that is itself a resumed run is killed as well (once per tier, first configuration): right after it has opened .params for
         # rewriting, and right after its first own chromosome lock; the second --resume must still complete with the clean run's outputs
